@@ -38,6 +38,8 @@ pub struct WsCase {
     pub ops: Vec<AOp>,
     /// C10: content of the add-then-remove probe file (default: last variant of file 0)
     pub probe: Option<String>,
+    /// `strict.requirePath` (true = no fuzzy require resolution)
+    pub strict: bool,
 }
 
 impl WsCase {
@@ -49,6 +51,7 @@ impl WsCase {
             "files": self.files.iter().map(|(n, v)| json!({"name": n, "variants": v})).collect::<Vec<_>>(),
             "initial": self.initial,
             "probe": self.probe,
+            "strict": self.strict,
             "ops": self.ops.iter().map(|o| match o {
                 AOp::Update(i, v) => json!(["update", i, v]),
                 AOp::Resubmit(i) => json!(["resubmit", i]),
@@ -77,7 +80,7 @@ impl WsCase {
                 _ => return None,
             });
         }
-        Some(WsCase { files, initial, ops, probe: v["probe"].as_str().map(|s| s.to_string()) })
+        Some(WsCase { files, initial, ops, probe: v["probe"].as_str().map(|s| s.to_string()), strict: v["strict"].as_bool().unwrap_or(false) })
     }
 }
 
@@ -86,7 +89,16 @@ pub fn uri_of(name: &str) -> Uri {
 }
 
 pub fn new_analysis() -> EmmyLuaAnalysis {
+    new_analysis_cfg(false)
+}
+
+pub fn new_analysis_cfg(strict: bool) -> EmmyLuaAnalysis {
     let mut a = EmmyLuaAnalysis::new();
+    if strict {
+        let mut rc = emmylua_code_analysis::Emmyrc::default();
+        rc.strict.require_path = true;
+        a.update_config(std::sync::Arc::new(rc));
+    }
     a.add_main_workspace(PathBuf::from(ROOT));
     a
 }
@@ -99,8 +111,8 @@ pub struct Sim {
 }
 
 impl Sim {
-    pub fn new(n: usize) -> Sim {
-        Sim { a: new_analysis(), current: vec![None; n] }
+    pub fn new(n: usize, strict: bool) -> Sim {
+        Sim { a: new_analysis_cfg(strict), current: vec![None; n] }
     }
     pub fn initial(&mut self, c: &WsCase) {
         let batch: Vec<(Uri, Option<String>)> =
@@ -138,8 +150,8 @@ impl Sim {
 }
 
 /// fresh analysis of the given (name, text) list, loaded one by one in that order
-pub fn fresh(files: &[(String, String)]) -> EmmyLuaAnalysis {
-    let mut a = new_analysis();
+pub fn fresh(files: &[(String, String)], strict: bool) -> EmmyLuaAnalysis {
+    let mut a = new_analysis_cfg(strict);
     let batch: Vec<(Uri, Option<String>)> = files.iter().map(|(n, t)| (uri_of(n), Some(t.clone()))).collect();
     a.update_files_by_uri(batch);
     a
@@ -328,22 +340,29 @@ pub fn grown_sizes(x: &BTreeMap<String, usize>, y: &BTreeMap<String, usize>) -> 
 
 // ---------------------------------------------------------------- generators
 
+/// module name the default patterns give a workspace-relative file name
+pub fn mod_name(name: &str) -> String {
+    let n = name.strip_suffix("/init.lua").or_else(|| name.strip_suffix(".lua")).unwrap_or(name);
+    n.replace('/', ".")
+}
+
 const CLASSES: &[&str] = &["Ca", "Cb"];
 const GLOBALS: &[&str] = &["Ga", "Gb"];
 
 /// one content piece; `k` = file index (used in docs so that contributions of different files differ)
-fn piece(rng: &mut Rng, k: usize, nfiles: usize, disjoint: bool) -> String {
+fn piece(rng: &mut Rng, k: usize, nfiles: usize, disjoint: bool, mods: &[String]) -> String {
     // `disjoint`: every file declares its own classes / globals (no symbol is declared in two files)
     let c_owned = if disjoint { format!("{}{k}", rng.pick(CLASSES)) } else { rng.pick(CLASSES).to_string() };
     let g_owned = if disjoint { format!("{}{k}", rng.pick(GLOBALS)) } else { rng.pick(GLOBALS).to_string() };
     let (c, g) = (c_owned.as_str(), g_owned.as_str());
     let other = rng.below(nfiles);
+    let other_mod = mods.get(other).cloned().unwrap_or_else(|| format!("f{other}"));
     // split classes are declared `(partial)` in every file (the documented way); a plain duplicate
     // declaration (a `duplicate-type` diagnostic) is kept as a rare malformed case
     let pc = if rng.chance(9, 10) { format!("(partial) {c}") } else { c.to_string() };
     let npieces = if rng.chance(1, 12) { 17 } else { 16 };
     match rng.below(npieces) {
-        16 => format!("---@class {pc}\nlocal r{k} = require(\"f{other}\")\nprint(r{k}.value)\n"),
+        16 => format!("---@class {pc}\nlocal r{k} = require(\"{other_mod}\")\nprint(r{k}.value)\n"),
         0 => format!("--- doc of {c} from f{k}\n---@class {pc}\n---@field x{k} integer\nlocal {c} = {{}}\n"),
         1 => format!("---@class {pc}\nlocal {c} = {{}}\n--- method doc f{k}\nfunction {c}:m{k}() return {k} end\n"),
         2 => format!("---@deprecated\n---@class {pc}\n---@field d{k} string\n"),
@@ -351,7 +370,7 @@ fn piece(rng: &mut Rng, k: usize, nfiles: usize, disjoint: bool) -> String {
         4 => format!("{g} = {k}\n"),
         5 => format!("--- global fn doc f{k}\nfunction {g}fn() return {k} end\n"),
         6 => format!("{g} = {g} or {{}}\n{g}.field{k} = {k}\n"),
-        7 => format!("local m{k} = require(\"f{other}\")\nlocal v{k} = m{k}.value\nprint(v{k})\n"),
+        7 => format!("local m{k} = require(\"{other_mod}\")\nlocal v{k} = m{k}.value\nprint(v{k})\n"),
         8 => format!("---@alias Al{}{} string|integer\n", rng.below(2), if disjoint { format!("_{k}") } else { String::new() }),
         9 => format!("---@enum En{}{}\nlocal En = {{ A = 1, B = {k} }}\n", rng.below(2), if disjoint { format!("_{k}") } else { String::new() }),
         10 => format!("---@class {pc}\n---@operator add({c}): {c}\n"),
@@ -363,10 +382,10 @@ fn piece(rng: &mut Rng, k: usize, nfiles: usize, disjoint: bool) -> String {
     }
 }
 
-fn gen_text(rng: &mut Rng, k: usize, nfiles: usize, module: bool, disjoint: bool) -> String {
+fn gen_text(rng: &mut Rng, k: usize, nfiles: usize, module: bool, disjoint: bool, mods: &[String]) -> String {
     let mut s = String::new();
     for _ in 0..rng.range(1, 4) {
-        s.push_str(&piece(rng, k, nfiles, disjoint));
+        s.push_str(&piece(rng, k, nfiles, disjoint, mods));
         s.push('\n'); // a blank line: a trailing doc block must not attach to the next piece's statement
     }
     if module {
@@ -383,22 +402,43 @@ pub fn gen_files(rng: &mut Rng) -> Vec<(String, Vec<String>)> {
 pub fn gen_files_probe(rng: &mut Rng) -> (Vec<(String, Vec<String>)>, String) {
     let n = rng.range(2, 4);
     let disjoint = rng.chance(1, 2);
+    // layouts: flat (`f{k}.lua`, some under `lib/`), or a parent module (`p/init.lua` or `p.lua`) next to its
+    // child modules (`p/f{k}.lua`)
+    let parent_layout = rng.chance(1, 3);
+    let names: Vec<String> = (0..n)
+        .map(|k| {
+            if parent_layout {
+                if k == 0 { if rng.chance(1, 2) { "p/init.lua".to_string() } else { "p.lua".to_string() } } else { format!("p/f{k}.lua") }
+            } else if rng.chance(1, 5) {
+                format!("lib/f{k}.lua")
+            } else {
+                format!("f{k}.lua")
+            }
+        })
+        .collect();
+    let mods: Vec<String> = names.iter().map(|n| mod_name(n)).collect();
     let files = (0..n)
         .map(|k| {
-            let module = rng.chance(1, 2);
+            let module = parent_layout || rng.chance(1, 2);
             let nv = rng.range(2, 3);
-            let vs = (0..nv).map(|_| gen_text(rng, k, n, module, disjoint)).collect();
-            let name = if rng.chance(1, 5) { format!("lib/f{k}.lua") } else { format!("f{k}.lua") };
-            (name, vs)
+            let vs = (0..nv).map(|_| gen_text(rng, k, n, module, disjoint, &mods)).collect();
+            (names[k].clone(), vs)
         })
         .collect();
     let probe_module = rng.chance(1, 2);
-    let probe = gen_text(rng, n, n, probe_module, disjoint);
+    let probe = gen_text(rng, n, n, probe_module, disjoint, &mods);
     (files, probe)
 }
 
 pub fn queries(files: &[(String, Vec<String>)]) -> Vec<String> {
     let mut q: Vec<String> = (0..files.len()).map(|k| format!("f{k}")).collect();
+    for (n, _) in files {
+        let m = mod_name(n);
+        if !q.contains(&m) {
+            q.push(m);
+        }
+    }
+    q.push("p".into());
     q.push("lib.f0".into());
     q.push("nope".into());
     q
